@@ -170,7 +170,7 @@ fn record_program(p: &mut Prng, tag: u64) -> FlowCase {
 }
 
 pub const MATCH_SHAPES: u64 = 7 * 2 * 2; // n in 3..=9 × payload × wildcard
-pub const MATCH_REPEATS: u64 = 3;
+pub const MATCH_REPEATS: u64 = 4;
 pub const CALLS: u64 = 12;
 pub const RECORDS: u64 = 32;
 
@@ -194,6 +194,17 @@ pub fn case_for(seed: u64, idx: u64, thorough: bool) -> FlowCase {
     } else {
         record_program(&mut p, idx - nm - CALLS * k)
     }
+}
+
+/// A few instances per kind of violation and process are enough (the report is capped).
+fn allow(key: &str) -> bool {
+    use std::collections::HashMap;
+    use std::sync::Mutex;
+    static COUNTS: Mutex<Option<HashMap<String, usize>>> = Mutex::new(None);
+    let mut g = COUNTS.lock().unwrap();
+    let n = g.get_or_insert_with(HashMap::new).entry(key.to_string()).or_insert(0);
+    *n += 1;
+    *n <= 4
 }
 
 fn perturb_name(p: &Perturb) -> String {
@@ -227,7 +238,13 @@ fn conv(r: Result<Option<roto::verif_hooks::core::HookVal>, String>) -> EvalOut 
 
 /// Everything one compilation of `case` shows. `only`: restrict to one
 /// (input, perturbation) — replay.
-pub fn check_case(rep: &mut Report, case: &FlowCase, origin: Value, only: Option<(&[u64], &Perturb)>) {
+pub fn check_case(
+    rep: &mut Report,
+    case: &FlowCase,
+    origin: Value,
+    only: Option<(&[u64], &Perturb)>,
+    drv: Option<&mut rotov_harness::driver::Driver>,
+) {
     let rt: &'static Runtime<roto::NoCtx> = Box::leak(Box::new(Runtime::new()));
     let tree = FileTree::test_file("c20.roto", &case.src, 0);
     let mut lir = match lower_to_mir(tree, rt) {
@@ -242,6 +259,27 @@ pub fn check_case(rep: &mut Report, case: &FlowCase, origin: Value, only: Option
         if t.len() >= 2 {
             let sorted = t.windows(2).all(|w| w[0] < w[1]);
             rep.hist("switch-table", format!("{} entries, {}", t.len(), if sorted { "ascending" } else { "not ascending" }));
+        }
+    }
+    // the branch tables the compiler really produced, through the GENERATED Switch arm and the
+    // Cranelift model in Lean: first entry with the key / default, on both sides
+    if let Some(drv) = drv {
+        for t in tables.iter().filter(|t| !t.is_empty()) {
+            let tbl = t.iter().enumerate().map(|(i, k)| format!("{k}:{i}")).collect::<Vec<_>>().join(",");
+            let top = t.iter().max().copied().unwrap_or(0) + 1;
+            let reqs: Vec<String> = (0..=top).map(|x| format!("c20 switch {x} 9999 {tbl}")).collect();
+            for (x, ans) in drv.ask_all(&reqs).into_iter().enumerate() {
+                rep.evaluations += 1;
+                let want = t.iter().position(|k| *k == x).map(|i| i.to_string()).unwrap_or("9999".into());
+                let dup = (1..t.len()).any(|i| t[..i].contains(&t[i]));
+                let expect = format!("{want} {}", if dup { "dup".to_string() } else { want.clone() });
+                if ans != expect {
+                    rep.mismatch(
+                        "Lean Switch arms (generated evaluator arm / Cranelift model) do not take the first entry with the key on a table the compiler produced",
+                        json!({"table": t, "x": x, "lean": ans, "expected": expect, "src": case.src}),
+                    );
+                }
+            }
         }
     }
     let sites = lir.oob_sites();
@@ -280,7 +318,7 @@ pub fn check_case(rep: &mut Report, case: &FlowCase, origin: Value, only: Option
             let outcome = if r.is_err() { "stop" } else { "COMPLETED" };
             rep.class(format!("oob-ir|{}|slot{}|w{}{pad}|{outcome}", s.kind, s.slot_size, s.new_access_size));
             rep.hist("oob-ir", format!("{}{pad}|{outcome}", s.kind));
-            if let Ok(v) = &r {
+            if let (Ok(v), true) = (&r, r.is_err() || allow(&format!("oob-ir {}{pad}", s.kind))) {
                 rep.violation(
                     &format!(
                         "evaluator completed (with {v:?}) on IR whose {}-byte access at offset {} ends past its {}-byte stack slot",
@@ -324,13 +362,16 @@ pub fn check_case(rep: &mut Report, case: &FlowCase, origin: Value, only: Option
                             perturb_name(&pt)
                         ),
                     };
+                    let key = format!("flow {}{}", case.kind, if pt == Perturb::None { "" } else { " switch-order" });
+                    if allow(&key) {
                     rep.violation(
                         &what,
-                        &format!("flow {}{}", case.kind, if pt == Perturb::None { "" } else { " switch-order" }),
+                        &key,
                         json!({"case": {"kind": "flow", "src": case.src, "ty": case.ty.name(), "ret": case.ret.name(),
                                         "args": inp, "perturb": perturb_name(&pt)},
                                "eval": [t, b], "jit": j, "switch_tables": tables, "origin": origin}),
                     );
+                    }
                     "DISAGREE"
                 }
             }
@@ -344,10 +385,17 @@ pub fn check_case(rep: &mut Report, case: &FlowCase, origin: Value, only: Option
 }
 
 pub fn run(rep: &mut Report, seed: u64, thorough: bool, from: u64, n: u64) {
+    let mut drv = rotov_harness::driver::Driver::spawn().ok();
+    if let Some(d) = drv.as_mut() {
+        if d.ask("c20 switch 1 9 1:0") != "0 0" {
+            rep.mismatch("Lean driver does not answer `c20 switch` requests (stale or failed build)", json!({}));
+            drv = None;
+        }
+    }
     for idx in from..from + n {
         println!("START {idx}");
         let case = case_for(seed, idx, thorough);
-        check_case(rep, &case, json!({"seed": seed, "index": idx, "tier": if thorough { "thorough" } else { "quick" }}), None);
+        check_case(rep, &case, json!({"seed": seed, "index": idx, "tier": if thorough { "thorough" } else { "quick" }}), None, drv.as_mut());
         if idx % 29 == 0 {
             rep.sample(json!({"flow": case.kind, "src": case.src}));
         }
